@@ -143,82 +143,142 @@ Qed.
 
 (* ---------------------------------------------------------------- one group *)
 
-Definition mem_ok (w : world) (fl : str) (m : mem) : Prop :=
+(* the loaded stacks of an instance of user u (not an administrator): every one agrees with the files
+   and with the tag directory of u *)
+Definition mem_ok (w : world) (uo : option str) (fl : str) (m : mem) : Prop :=
   forall s ps, alookup s m = Some ps ->
-    ps_ok w s ps /\ has_stack (w_db w) s = true /\ alookup fl (ps_lookup ps) <> None.
+    ps_ok w uo s ps /\ has_stack (w_db w) s = true /\ alookup fl (ps_lookup ps) <> None.
 
 Definition group_wf (fl : str) (g : list aact) : Prop :=
   g <> [] /\ Forall (fun x => act_root x = group_stack g /\ act_flavor x = fl) g.
 
-Lemma mem_ok_aset w fl m s ps :
-  mem_ok w fl m -> ps_ok w s ps -> has_stack (w_db w) s = true -> alookup fl (ps_lookup ps) <> None ->
-  mem_ok w fl (aset s ps m).
+(* what [groups] produces: one action, or a declaration with the tag it carries *)
+Definition group_shape (g : list aact) : Prop :=
+  (exists x, g = [x]) \/
+  (exists s n v f r t, g = [ASetDecl s n v f r; ASetTag s n t f v]).
+
+Lemma mem_ok_aset w uo fl m s ps :
+  mem_ok w uo fl m -> ps_ok w uo s ps -> has_stack (w_db w) s = true -> alookup fl (ps_lookup ps) <> None ->
+  mem_ok w uo fl (aset s ps m).
 Proof.
   intros M A B C s' ps' H. rewrite alookup_aset in H. destruct (str_eqb_spec s' s) as [->|N].
   - inversion H. subst. auto.
   - apply M. exact H.
 Qed.
 
-Lemma save_flavor_ok tick w s loc fl ps w' ps' :
-  clock_strict tick -> INV w -> ps_ok w s ps -> alookup fl (ps_lookup ps) <> None ->
-  save_flavor tick w s loc fl ps = (w', ps') ->
-  INV w' /\ ps_ok w' s ps' /\ same_but s w w' /\ alookup fl (ps_lookup ps') <> None.
+Lemma owner_user u : u <> upsdb -> owner u = Some u.
+Proof. intro H. unfold owner. destruct (str_eqb_spec u upsdb); [contradiction|reflexivity]. Qed.
+
+Lemma save_flavor_ok tick w s loc u fl ps w' ps' :
+  clock_strict tick -> INV w -> ps_ok w (owner loc) s ps -> alookup fl (ps_lookup ps) <> None ->
+  save_flavor tick w s loc u fl ps = (w', ps') ->
+  INV w' /\ ps_ok w' (owner loc) s ps' /\ same_but s w w' /\ alookup fl (ps_lookup ps') <> None.
 Proof.
-  intros CS I OK Hf E. unfold save_flavor in E. rewrite (in_sync_true _ _ _ _ _ OK) in E.
+  intros CS I OK Hf E. unfold save_flavor in E. rewrite (in_sync_true _ _ _ _ _ _ OK) in E.
   destruct (persist_ok tick w s loc fl ps w' ps' CS I OK (fun H => False_ind _ (Hf H)) E) as [A [B [C [D _]]]].
   auto.
 Qed.
 
-Lemma run_group_ok tick loc fl w m g die w' m' r :
-  clock_strict tick -> INV w -> mem_ok w fl m ->
-  acts_ok (view (w_db w)) g -> group_wf fl g ->
-  run_group tick repaired loc fl w m g die = (w', m', r) ->
-  INV w' /\ r <> GRaised /\ (r = GOk -> mem_ok w' fl m') /\
+(* nobody rewrote the cache files: ensureInSync leaves the data alone *)
+Lemma ensure_in_sync_same w w' uo s loc ps :
+  w_pickles w' = w_pickles w -> ps_ok w uo s ps -> ensure_in_sync w' s loc ps = ps.
+Proof.
+  intros P [_ [_ B]]. unfold ensure_in_sync.
+  assert (X : forallb (in_sync w' s ps loc) (akeys (ps_lookup ps)) = true).
+  { apply forallb_forall. intros f _. unfold in_sync.
+    destruct (glookup key_eqb (loc, f) (ps_modtimes ps)) as [mm|] eqn:E1; [|reflexivity].
+    destruct (pk_get w' loc s f) as [p|] eqn:E2; [|reflexivity].
+    apply Nat.leb_le. rewrite (pk_get_pickles w) in E2 by exact P. exact (B _ _ _ _ E1 E2). }
+  rewrite X. reflexivity.
+Qed.
+
+(* the write-through of a group keeps the agreement with the tag directory *)
+Lemma wt_group_ugood tick w u uts s fl g ps ps' ch :
+  group_shape g -> Forall (fun x => act_root x = s /\ act_flavor x = fl) g ->
+  (forall s n v f, uts s n v f = utags_on (w_uc (do_uacts tick w u g)) u s n v f) ->
+  ps_ugood ps (w_uc w) (Some u) s -> lookup_agree ps (w_db w) s ->
+  no_dangling (view (w_db w)) -> acts_ok (view (w_db w)) g -> has_stack (w_db w) s = true ->
+  alookup fl (ps_lookup ps) <> None ->
+  wt_acts false uts g ps = Ok (ps', ch) ->
+  ps_ugood ps' (w_uc (do_acts tick (do_uacts tick w u g) g)) (Some u) s.
+Proof.
+  intros Sh F Huts G A ND OK HS Hfl E. rewrite do_acts_uc.
+  destruct Sh as [[x ->]|[s0 [n [v [f [r [t ->]]]]]]].
+  - inversion F as [|? ? [R1 R2] _]. subst. cbn [wt_acts] in E.
+    destruct (wt_act false uts x ps) as [[ps1 c1]|] eqn:E1; [|discriminate]. inversion E. subst ps' ch.
+    unfold do_uacts in *. cbn [fold_left] in *.
+    rewrite <- (do_act_uc tick (do_uact tick w u x) x).
+    apply (wt_act_ugood tick w u uts ps (act_root x) x ps1 c1); auto.
+  - inversion F as [|? ? [R1 R2] F']. inversion F' as [|? ? [R3 R4] _]. subst. cbn [act_root act_flavor act_nf snd] in *.
+    unfold do_uacts in *. cbn [fold_left do_uact] in *. cbn [wt_acts] in E.
+    destruct (wt_act false uts (ASetDecl s0 n v f r) ps) as [[ps1 c1]|] eqn:E1; [|discriminate].
+    destruct (wt_act false uts (ASetTag s0 n t f v) ps1) as [[ps2 c2]|] eqn:E2; [|discriminate].
+    inversion E. subst ps' ch. destruct OK as [O1 [O2 _]].
+    destruct (wt_act_agree uts ps (w_db w) s0 (ASetDecl s0 n v f r) A ND O1 eq_refl HS Hfl)
+      as [ps1' [c1' [E1' [A1 [_ K1]]]]].
+    rewrite E1 in E1'. inversion E1'. subst ps1' c1'.
+    pose proof (wt_act_ugood tick w u uts ps s0 (ASetDecl s0 n v f r) ps1 c1 Huts G A eq_refl Hfl E1) as G1.
+    cbn [do_uact] in G1.
+    assert (G2 := wt_act_ugood tick (do_act tick w (ASetDecl s0 n v f r)) u uts ps1 s0 (ASetTag s0 n t f v) ps2 c2).
+    cbn [do_uact] in G2. rewrite !do_act_uc in G2. rewrite do_act_uc in G1. apply G2; auto; try (rewrite do_act_db; exact A1); try (apply K1; exact Hfl).
+Qed.
+
+Lemma run_group_ok tick u fl w m g die w' m' r :
+  clock_strict tick -> u <> upsdb -> INV w -> mem_ok w (Some u) fl m ->
+  acts_ok (view (w_db w)) g -> group_wf fl g -> group_shape g ->
+  run_group tick repaired u u fl w m g die = (w', m', r) ->
+  INV w' /\ r <> GRaised /\ (r = GOk -> mem_ok w' (Some u) fl m') /\
   aeq (view (w_db w')) (aapply_all g (view (w_db w))).
 Proof.
-  intros CS I M OK [Gne GF] E. unfold run_group in E.
-  pose proof (do_acts_inv tick g CS w I OK) as I1.
-  pose proof (do_acts_db tick g w) as D1. pose proof (do_acts_pickles tick g w) as P1.
-  assert (AE : aeq (view (w_db (do_acts tick w g))) (aapply_all g (view (w_db w)))).
+  intros CS Hu I M OK [Gne GF] Sh E. unfold run_group in E.
+  set (wa := do_uacts tick w u g) in *.
+  assert (Ia : INV wa) by (apply do_uacts_inv; assumption).
+  assert (Da : w_db wa = w_db w) by apply do_uacts_db.
+  assert (Pa : w_pickles wa = w_pickles w) by apply do_uacts_pickles.
+  assert (OKa : acts_ok (view (w_db wa)) g) by (rewrite Da; exact OK).
+  pose proof (do_acts_inv tick g CS wa Ia OKa) as I1.
+  pose proof (do_acts_db tick g wa) as D1. rewrite Da in D1. pose proof (do_acts_pickles tick g wa) as P1. rewrite Pa in P1.
+  pose proof (do_acts_uc tick g wa) as U1.
+  assert (AE : aeq (view (w_db (do_acts tick wa g))) (aapply_all g (view (w_db w)))).
   { rewrite D1. apply apply_acts_refines. }
   (* the loaded stacks other than the group's are not concerned *)
   assert (Others : forall s2 ps2, s2 <> group_stack g -> alookup s2 m = Some ps2 ->
-            ps_ok (do_acts tick w g) s2 ps2 /\ has_stack (w_db (do_acts tick w g)) s2 = true /\
+            ps_ok (do_acts tick wa g) (Some u) s2 ps2 /\ has_stack (w_db (do_acts tick wa g)) s2 = true /\
             alookup fl (ps_lookup ps2) <> None).
-  { intros s2 ps2 N H. destruct (M s2 ps2 H) as [[A B] [C D]]. split; [split|split].
-    - rewrite D1. apply lookup_agree_other_stack; [exact A|].
-      apply Forall_forall. intros x Hx. destruct (proj1 (Forall_forall _ _) GF x Hx) as [R _]. congruence.
+  { intros s2 ps2 N H. destruct (M s2 ps2 H) as [[A [U B]] [C D]].
+    assert (FN : Forall (fun x => act_root x <> s2) g).
+    { apply Forall_forall. intros x Hx. destruct (proj1 (Forall_forall _ _) GF x Hx) as [R _]. congruence. }
+    split; [split; [|split]|split].
+    - rewrite D1. apply lookup_agree_other_stack; [exact A|exact FN].
+    - rewrite U1. apply (ps_ugood_ext ps2 (w_uc w)); [|exact U].
+      intros u0 n t f Eu. inversion Eu. subst u0. apply do_uacts_uc_other. exact FN.
     - intros l f mm p H1 H2. rewrite (pk_get_pickles w) in H2 by exact P1. exact (B l f mm p H1 H2).
     - rewrite D1, apply_acts_has_stack. exact C.
     - exact D. }
   destruct die.
   - inversion E. subst. split; [exact I1|]. split; [discriminate|]. split; [discriminate|exact AE].
   - destruct (alookup (group_stack g) m) as [ps|] eqn:Em.
-    + destruct (M _ _ Em) as [[A B] [C D]].
-      assert (OKps : ps_ok (do_acts tick w g) (group_stack g) ps -> True) by auto.
-      (* nobody rewrote the cache files: ensureInSync leaves the data alone *)
-      assert (MT : mt_ok (do_acts tick w g) (group_stack g) ps).
+    + destruct (M _ _ Em) as [[A [U B]] [C D]].
+      assert (MT : mt_ok (do_acts tick wa g) (group_stack g) ps).
       { intros l f mm p H1 H2. rewrite (pk_get_pickles w) in H2 by exact P1. exact (B l f mm p H1 H2). }
-      assert (ES : ensure_in_sync (do_acts tick w g) (group_stack g) loc ps = ps).
-      { unfold ensure_in_sync.
-        assert (X : forallb (in_sync (do_acts tick w g) (group_stack g) ps loc) (akeys (ps_lookup ps)) = true).
-        { apply forallb_forall. intros f _. unfold in_sync.
-          destruct (glookup key_eqb (loc, f) (ps_modtimes ps)) as [mm|] eqn:E1; [|reflexivity].
-          destruct (pk_get (do_acts tick w g) loc (group_stack g) f) as [p|] eqn:E2; [|reflexivity].
-          apply Nat.leb_le. exact (MT _ _ _ _ E1 E2). }
-        rewrite X. reflexivity. }
-      rewrite ES in E.
-      destruct (wt_acts_agree (group_stack g) fl g ps (w_db w) A (inv_nd w I) OK GF C D)
+      rewrite (ensure_in_sync_same w _ (Some u) _ _ ps P1 (conj A (conj U B))) in E.
+      destruct (wt_acts_agree (read_back false (do_acts tick wa g) u) (group_stack g) fl g ps (w_db w) A (inv_nd w I) OK GF C D)
         as [ps2 [ch [Ew [A2 [M2 K2]]]]].
-      cbn [v_rm repaired] in E. rewrite Ew in E.
-      assert (OK2 : ps_ok (do_acts tick w g) (group_stack g) ps2).
-      { split; [rewrite D1; exact A2|]. rewrite M2. exact MT. }
-      assert (HS : has_stack (w_db (do_acts tick w g)) (group_stack g) = true).
+      cbn [v_rm v_noread repaired] in E. rewrite Ew in E.
+      assert (U2 : ps_ugood ps2 (w_uc (do_acts tick wa g)) (Some u) (group_stack g)).
+      { apply (wt_group_ugood tick w u (read_back false (do_acts tick wa g) u) (group_stack g) fl g ps ps2 ch Sh GF); auto.
+        - intros s0 n0 v0 f0. unfold read_back. rewrite U1. reflexivity.
+        - apply (inv_nd w I). }
+      assert (OK2 : ps_ok (do_acts tick wa g) (Some u) (group_stack g) ps2).
+      { split; [rewrite D1; exact A2|]. split; [exact U2|]. rewrite M2. exact MT. }
+      assert (HS : has_stack (w_db (do_acts tick wa g)) (group_stack g) = true).
       { rewrite D1, apply_acts_has_stack. exact C. }
+      rewrite <- (owner_user u Hu) in OK2.
       destruct (save_always g || ch).
-      * destruct (save_flavor tick (do_acts tick w g) (group_stack g) loc fl ps2) as [w2 ps3] eqn:Es.
+      * destruct (save_flavor tick (do_acts tick wa g) (group_stack g) u u fl ps2) as [w2 ps3] eqn:Es.
         inversion E. subst w' m' r. clear E.
-        destruct (save_flavor_ok tick _ _ loc fl ps2 w2 ps3 CS I1 OK2 (K2 _ D) Es) as [I2 [OK3 [SB F3]]].
+        destruct (save_flavor_ok tick _ _ u u fl ps2 w2 ps3 CS I1 OK2 (K2 _ D) Es) as [I2 [OK3 [SB F3]]].
+        rewrite (owner_user u Hu) in OK3.
         split; [exact I2|]. split; [discriminate|]. split.
         -- intros _ s2 ps2' H. rewrite alookup_aset in H. destruct (str_eqb_spec s2 (group_stack g)) as [->|N].
            ++ inversion H. subst ps2'. destruct SB as [Edb _]. rewrite Edb. auto.
@@ -226,7 +286,7 @@ Proof.
               ** eapply ps_ok_frame; [exact SB|exact N|exact X1].
               ** destruct SB as [Edb _]. rewrite Edb. exact X2.
         -- destruct SB as [Edb _]. rewrite Edb. exact AE.
-      * inversion E. subst w' m' r. clear E.
+      * inversion E. subst w' m' r. clear E. rewrite (owner_user u Hu) in OK2.
         split; [exact I1|]. split; [discriminate|]. split; [|exact AE].
         intros _ s2 ps2' H. rewrite alookup_aset in H. destruct (str_eqb_spec s2 (group_stack g)) as [->|N].
         -- inversion H. subst ps2'. auto.
@@ -240,52 +300,56 @@ Qed.
 
 Definition gwf (g : list aact) : Prop := g <> [] /\ Forall (fun x => act_root x = group_stack g) g.
 
-Lemma groups_spec_len n : forall xs, length xs <= n -> concat (groups xs) = xs /\ Forall gwf (groups xs).
+Lemma groups_spec_len n : forall xs, length xs <= n ->
+  concat (groups xs) = xs /\ Forall gwf (groups xs) /\ Forall group_shape (groups xs).
 Proof.
   induction n as [|n IH]; intros xs L.
-  - destruct xs; [|cbn in L; lia]. split; [reflexivity|constructor].
-  - destruct xs as [|x rest]; [split; [reflexivity|constructor]|]. cbn [length] in L.
-    assert (Single : forall y, concat ([y] :: groups rest) = y :: rest /\ Forall gwf ([y] :: groups rest)).
-    { intro y. destruct (IH rest) as [C F]; [lia|]. split.
+  - destruct xs; [|cbn in L; lia]. split; [reflexivity|split; constructor].
+  - destruct xs as [|x rest]; [split; [reflexivity|split; constructor]|]. cbn [length] in L.
+    assert (Single : forall y, concat ([y] :: groups rest) = y :: rest /\ Forall gwf ([y] :: groups rest) /\
+                                Forall group_shape ([y] :: groups rest)).
+    { intro y. destruct (IH rest) as [C [F S]]; [lia|]. split; [|split].
       - cbn [concat app]. rewrite C. reflexivity.
-      - constructor; [|exact F]. split; [discriminate|]. constructor; [reflexivity|constructor]. }
+      - constructor; [|exact F]. split; [discriminate|]. constructor; [reflexivity|constructor].
+      - constructor; [|exact S]. left. exists y. reflexivity. }
     destruct x as [s n0 v f r|s n0 v f|s n0 t f v|s n0 t f]; cbn [groups]; try apply Single.
     destruct rest as [|y rest']; [apply (Single (ASetDecl s n0 v f r))|].
     destruct y as [s' n' v' f' r'|s' n' v' f'|s' n' t' f' v'|s' n' t' f']; try apply (Single (ASetDecl s n0 v f r)).
     destruct (str_eqb s s' && str_eqb n0 n' && str_eqb f f' && str_eqb v v') eqn:E;
       [|apply (Single (ASetDecl s n0 v f r))].
-    apply andb_true_iff in E. destruct E as [E _]. apply andb_true_iff in E. destruct E as [E _].
-    apply andb_true_iff in E. destruct E as [E _]. apply str_eqb_eq in E. subst s'.
-    cbn [length] in L. destruct (IH rest') as [C F]; [lia|]. split.
+    rewrite !andb_true_iff, !str_eqb_eq in E. destruct E as [[[-> ->] ->] ->].
+    cbn [length] in L. destruct (IH rest') as [C [F S]]; [lia|]. split; [|split].
     + cbn [concat app]. rewrite C. reflexivity.
     + constructor; [|exact F]. split; [discriminate|]. repeat constructor.
+    + constructor; [|exact S]. right. exists s', n', v', f', r, t'. reflexivity.
 Qed.
 
-Lemma groups_spec xs : concat (groups xs) = xs /\ Forall gwf (groups xs).
+Lemma groups_spec xs : concat (groups xs) = xs /\ Forall gwf (groups xs) /\ Forall group_shape (groups xs).
 Proof. apply (groups_spec_len (length xs)). lia. Qed.
 
 Lemma aeq_path a b : aeq a b -> apath a = apath b.
 Proof. intros [H _]. exact H. Qed.
 
-Lemma run_groups_ok tick loc fl gs : forall w m crash w' m' r,
-  clock_strict tick -> INV w -> mem_ok w fl m ->
-  acts_ok (view (w_db w)) (concat gs) -> Forall (group_wf fl) gs ->
-  run_groups tick repaired loc fl w m gs crash = (w', m', r) ->
-  INV w' /\ r <> GRaised /\ (r = GOk -> mem_ok w' fl m') /\ wpath w' = wpath w.
+Lemma run_groups_ok tick u fl gs : forall w m crash w' m' r,
+  clock_strict tick -> u <> upsdb -> INV w -> mem_ok w (Some u) fl m ->
+  acts_ok (view (w_db w)) (concat gs) -> Forall (group_wf fl) gs -> Forall group_shape gs ->
+  run_groups tick repaired u u fl w m gs crash = (w', m', r) ->
+  INV w' /\ r <> GRaised /\ (r = GOk -> mem_ok w' (Some u) fl m') /\ wpath w' = wpath w.
 Proof.
-  induction gs as [|g rest IH]; intros w m crash w' m' r CS I M OK F E; cbn [run_groups] in E.
+  induction gs as [|g rest IH]; intros w m crash w' m' r CS Hu I M OK F SH E; cbn [run_groups] in E.
   - inversion E. subst. split; [exact I|]. split; [discriminate|]. split; [auto|reflexivity].
   - cbn [concat] in OK. apply acts_ok_app in OK. destruct OK as [OKg OKr]. inversion F as [|? ? Fg Fr]. subst.
+    inversion SH as [|? ? Sg Sr]. subst.
     assert (Step : forall die crash',
-      (let '(w1, m1, r1) := run_group tick repaired loc fl w m g die in
-       match r1 with GOk => run_groups tick repaired loc fl w1 m1 rest crash' | _ => (w1, m1, r1) end) = (w', m', r) ->
-      INV w' /\ r <> GRaised /\ (r = GOk -> mem_ok w' fl m') /\ wpath w' = wpath w).
-    { intros die crash' E'. destruct (run_group tick repaired loc fl w m g die) as [[w1 m1] r1] eqn:Eg.
-      destruct (run_group_ok tick loc fl w m g die w1 m1 r1 CS I M OKg Fg Eg) as [I1 [NR [M1 AE]]].
+      (let '(w1, m1, r1) := run_group tick repaired u u fl w m g die in
+       match r1 with GOk => run_groups tick repaired u u fl w1 m1 rest crash' | _ => (w1, m1, r1) end) = (w', m', r) ->
+      INV w' /\ r <> GRaised /\ (r = GOk -> mem_ok w' (Some u) fl m') /\ wpath w' = wpath w).
+    { intros die crash' E'. destruct (run_group tick repaired u u fl w m g die) as [[w1 m1] r1] eqn:Eg.
+      destruct (run_group_ok tick u fl w m g die w1 m1 r1 CS Hu I M OKg Fg Sg Eg) as [I1 [NR [M1 AE]]].
       assert (P1 : wpath w1 = wpath w).
       { unfold wpath. rewrite <- !apath_view, (aeq_path _ _ AE), apath_aapply_all. reflexivity. }
       destruct r1.
-      - destruct (IH w1 m1 crash' w' m' r CS I1 (M1 eq_refl)) as [A [B [C D]]]; auto.
+      - destruct (IH w1 m1 crash' w' m' r CS Hu I1 (M1 eq_refl)) as [A [B [C D]]]; auto.
         + eapply acts_ok_aeq; [apply aeq_sym; exact AE|exact OKr].
         + split; [exact A|]. split; [exact B|]. split; [exact C|congruence].
       - inversion E'. subst. split; [exact I1|]. split; [discriminate|]. split; [discriminate|exact P1].
@@ -298,19 +362,19 @@ Proof.
     + apply (Step false None E).
 Qed.
 
-Lemma run_op_ok tick loc fl w m x crash w' m' oc :
-  clock_strict tick -> INV w -> mem_ok w fl m ->
-  run_op tick repaired loc fl w m x crash = (w', m', oc) ->
-  INV w' /\ (oc <> OCrashed -> mem_ok w' fl m') /\ wpath w' = wpath w.
+Lemma run_op_ok tick u fl w m x crash w' m' oc :
+  clock_strict tick -> u <> upsdb -> INV w -> mem_ok w (Some u) fl m ->
+  run_op tick repaired u u fl w m x crash = (w', m', oc) ->
+  INV w' /\ (oc <> OCrashed -> mem_ok w' (Some u) fl m') /\ wpath w' = wpath w.
 Proof.
-  intros CS I M E. unfold run_op in E.
+  intros CS Hu I M E. unfold run_op in E.
   destruct (str_eqb_spec (o_flavor (op_opts x)) fl) as [Efl|N]; cbn [negb] in E.
   2:{ inversion E. subst. auto. }
   destruct (decide false (view (w_db w)) x) as [acts|e] eqn:Ed.
   2:{ inversion E. subst. auto. }
-  destruct (run_groups tick repaired loc fl w m (groups acts) crash) as [[w1 m1] r] eqn:Eg.
+  destruct (run_groups tick repaired u u fl w m (groups acts) crash) as [[w1 m1] r] eqn:Eg.
   inversion E. subst w' m' oc. clear E.
-  destruct (groups_spec acts) as [C G].
+  destruct (groups_spec acts) as [C [G SH]].
   assert (FL : Forall (fun x0 => act_flavor x0 = fl) acts).
   { pose proof (decide_scope _ _ _ _ Ed) as S. apply Forall_forall. intros y Hy.
     pose proof (proj1 (Forall_forall _ _) S y Hy) as Hn. unfold act_flavor. rewrite Hn. exact Efl. }
@@ -319,70 +383,236 @@ Proof.
     split; [exact G1|]. apply Forall_forall. intros y Hy. split.
     - exact (proj1 (Forall_forall _ _) G2 y Hy).
     - apply (proj1 (Forall_forall _ _) FL y). rewrite <- C. apply in_concat. exists g. auto. }
-  destruct (run_groups_ok tick loc fl (groups acts) w m crash w1 m1 r CS I M) as [I1 [NR [M1 P1]]]; auto.
+  destruct (run_groups_ok tick u fl (groups acts) w m crash w1 m1 r CS Hu I M) as [I1 [NR [M1 P1]]]; auto.
   - rewrite C. apply (decide_acts_ok _ _ _ _ Ed).
   - split; [exact I1|]. split; [|exact P1]. intro H. apply M1. destruct r; congruence.
 Qed.
 
-Lemma delete_cache_mem_ok w fl m l s f : mem_ok w fl m -> mem_ok (delete_cache w l s f) fl m.
+(* ---------------------------------------------------------------- the two user-tag commands *)
+
+Lemma do_udb_facts tick w u x : clock_strict tick -> u <> upsdb -> INV w ->
+  INV (do_udb tick false w u x) /\ w_db (do_udb tick false w u x) = w_db w /\
+  w_pickles (do_udb tick false w u x) = w_pickles w /\
+  (forall u' s2 n t f, s2 <> uact_stack x ->
+     uc_tag (w_uc (do_udb tick false w u x)) u' s2 n t f = uc_tag (w_uc w) u' s2 n t f).
 Proof.
-  intros M s' ps H. destruct (M s' ps H) as [[A B] [C D]]. split; [split|split]; auto.
+  intros CS Hu I. destruct x as [s n t f v|s n t f]; cbn [do_udb uact_stack].
+  - split; [apply do_uset_inv; assumption|]. split; [reflexivity|]. split; [reflexivity|].
+    intros u' s2 n' t' f' N. rewrite do_uset_uc_tag. unfold ukey_eqb.
+    destruct (str_eqb_spec s2 s); [contradiction|]. rewrite !andb_false_r. cbn [andb]. rewrite ?andb_false_r. reflexivity.
+  - split; [apply do_udel_inv; assumption|]. split; [apply do_udel_db|]. split; [apply do_udel_pickles|].
+    intros u' s2 n' t' f' N. rewrite do_udel_uc_tag. unfold ukey_eqb.
+    destruct (str_eqb_spec s2 s); [contradiction|]. rewrite !andb_false_r. cbn [andb]. rewrite ?andb_false_r. reflexivity.
+Qed.
+
+(* a USet is issued for a version that the files declare: the write-through does not raise *)
+Definition uact_ok (d : db) (x : uact) : Prop :=
+  match x with USet s n t f v => db_decl d s n v f <> None | UDel _ _ _ _ => True end.
+
+Definition uact_flavor (x : uact) : str := match x with USet _ _ _ f _ | UDel _ _ _ f => f end.
+
+Lemma run_uact_ok tick u fl w m x crash w' m' oc :
+  clock_strict tick -> u <> upsdb -> INV w -> mem_ok w (Some u) fl m ->
+  uact_ok (w_db w) x -> uact_flavor x = fl ->
+  run_uact tick repaired u u fl w m x crash = (w', m', oc) ->
+  INV w' /\ (oc <> OCrashed -> mem_ok w' (Some u) fl m') /\ wpath w' = wpath w.
+Proof.
+  intros CS Hu I M UOK UF E. unfold run_uact in E. cbn [v_uloc repaired] in E.
+  destruct (do_udb_facts tick w u x CS Hu I) as [I1 [D1 [P1 UC1]]].
+  set (w1 := do_udb tick false w u x) in *.
+  assert (Pw : wpath w1 = wpath w) by (unfold wpath; rewrite D1; reflexivity).
+  assert (Others : forall s2 ps2, s2 <> uact_stack x -> alookup s2 m = Some ps2 ->
+            ps_ok w1 (Some u) s2 ps2 /\ has_stack (w_db w1) s2 = true /\ alookup fl (ps_lookup ps2) <> None).
+  { intros s2 ps2 N H. destruct (M s2 ps2 H) as [[A [U B]] [C D]]. split; [split; [|split]|split].
+    - rewrite D1. exact A.
+    - apply (ps_ugood_ext ps2 (w_uc w)); [|exact U]. intros u0 n t f _. apply UC1. exact N.
+    - intros l f mm p H1 H2. rewrite (pk_get_pickles w) in H2 by exact P1. exact (B l f mm p H1 H2).
+    - rewrite D1. exact C.
+    - exact D. }
+  assert (Dead : forall w0, INV w0 -> wpath w0 = wpath w ->
+            INV w0 /\ (OCrashed <> OCrashed -> mem_ok w0 (Some u) fl m) /\ wpath w0 = wpath w).
+  { intros w0 I0 P0. split; [exact I0|]. split; [congruence|exact P0]. }
+  assert (Live : (match alookup (uact_stack x) m with
+                  | None => (w1, m, OOk)
+                  | Some ps =>
+                      let ps1 := ensure_in_sync w1 (uact_stack x) u ps in
+                      match wt_uact x ps1 with
+                      | Err _ => (w1, aset (uact_stack x) ps1 m, ORaised)
+                      | Ok (ps2, changed) =>
+                          if (match x with USet _ _ _ _ _ => true | UDel _ _ _ _ => false end) || changed then
+                            let '(w2, ps3) := save_flavor tick w1 (uact_stack x) u u fl ps2 in
+                            (w2, aset (uact_stack x) ps3 m, OOk)
+                          else (w1, aset (uact_stack x) ps2 m, OOk)
+                      end
+                  end) = (w', m', oc) ->
+            INV w' /\ (oc <> OCrashed -> mem_ok w' (Some u) fl m') /\ wpath w' = wpath w).
+  { clear E. intro E. destruct (alookup (uact_stack x) m) as [ps|] eqn:Em.
+    - destruct (M _ _ Em) as [[A [U B]] [C D]].
+      cbv zeta in E. rewrite (ensure_in_sync_same w w1 (Some u) _ _ ps P1 (conj A (conj U B))) in E.
+      destruct (wt_uact x ps) as [[ps2 ch]|e] eqn:Ew.
+      + destruct (wt_uact_agree x ps (w_db w) (uact_stack x) ps2 ch A Ew) as [A2 [M2 K2]].
+        pose proof (wt_uact_ugood tick w u ps x ps2 ch U Ew) as U2. fold w1 in U2.
+        assert (OK2 : ps_ok w1 (Some u) (uact_stack x) ps2).
+        { split; [rewrite D1; exact A2|]. split; [exact U2|]. rewrite M2.
+          intros l f mm p H1 H2. rewrite (pk_get_pickles w) in H2 by exact P1. exact (B l f mm p H1 H2). }
+        assert (HS : has_stack (w_db w1) (uact_stack x) = true) by (rewrite D1; exact C).
+        destruct ((match x with USet _ _ _ _ _ => true | UDel _ _ _ _ => false end) || ch).
+        * destruct (save_flavor tick w1 (uact_stack x) u u fl ps2) as [w2 ps3] eqn:Es.
+          inversion E. subst w' m' oc. clear E. rewrite <- (owner_user u Hu) in OK2.
+          destruct (save_flavor_ok tick _ _ u u fl ps2 w2 ps3 CS I1 OK2 (K2 _ D) Es) as [I2 [OK3 [SB F3]]].
+          rewrite (owner_user u Hu) in OK3.
+          split; [exact I2|]. split.
+          -- intros _ s2 ps2' H. rewrite alookup_aset in H. destruct (str_eqb_spec s2 (uact_stack x)) as [->|N].
+             ++ inversion H. subst ps2'. destruct SB as [Edb _]. rewrite Edb. auto.
+             ++ destruct (Others s2 ps2' N H) as [X1 [X2 X3]]. split; [|split; [|exact X3]].
+                ** eapply ps_ok_frame; [exact SB|exact N|exact X1].
+                ** destruct SB as [Edb _]. rewrite Edb. exact X2.
+          -- destruct SB as [Edb _]. unfold wpath. rewrite Edb. exact Pw.
+        * inversion E. subst w' m' oc. clear E. split; [exact I1|]. split; [|exact Pw].
+          intros _ s2 ps2' H. rewrite alookup_aset in H. destruct (str_eqb_spec s2 (uact_stack x)) as [->|N].
+          -- inversion H. subst ps2'. auto.
+          -- exact (Others s2 ps2' N H).
+      + (* the write-through cannot raise: the version is in the loaded family *)
+        exfalso. destruct x as [s n t f v|s n t f]; cbn [wt_uact uact_stack uact_ok uact_flavor] in *.
+        * subst fl. destruct (alookup f (ps_lookup ps)) as [fd|] eqn:Ef; [|congruence].
+          unfold ps_family in Ew. rewrite Ef in Ew. pose proof (proj1 (A f fd Ef n) v) as Hv.
+          unfold fd_decl in Hv. destruct (alookup n fd) as [fm|] eqn:Efm; [|congruence].
+          unfold fam_assign_utag, fam_has_version, amem in Ew.
+          destruct (alookup v (f_versions fm)); [discriminate|congruence].
+        * unfold ps_family in Ew. destruct (alookup f (ps_lookup ps)) as [fd|]; [|discriminate].
+          destruct (alookup n fd) as [fm|]; [|discriminate].
+          destruct (fam_unassign_utag t fm) as [fm' [|]]; discriminate.
+    - inversion E. subst w' m' oc. split; [exact I1|]. split; [|exact Pw].
+      intros _ s2 ps2 H. apply Others; [|exact H]. intro. subst. congruence. }
+  destruct crash as [[[|k] [|]]|].
+  - inversion E. subst. apply Dead; assumption.
+  - inversion E. subst. apply Dead; [exact I|reflexivity].
+  - apply Live. exact E.
+  - apply Live. exact E.
+  - apply Live. exact E.
+Qed.
+
+Lemma uassign_plan_ok w o t n v x : uassign_plan w o t n v = Ok (Some x) ->
+  uact_ok (w_db w) x /\ uact_flavor x = o_flavor o.
+Proof.
+  unfold uassign_plan. destruct (find_exact _ _ n v (o_flavor o)) as [[s' r]|] eqn:E; [|discriminate].
+  intro H. inversion H. subst x. cbn [uact_ok uact_flavor]. split; [|reflexivity].
+  apply find_exact_some in E. destruct E as [_ E]. rewrite a_decl_view in E. congruence.
+Qed.
+
+Lemma uunassign_plan_ok w u o t n vo x : uunassign_plan w u o t n vo = Ok (Some x) ->
+  uact_ok (w_db w) x /\ uact_flavor x = o_flavor o.
+Proof.
+  unfold uunassign_plan. intro H.
+  assert (G : forall s, uact_ok (w_db w) (UDel s n t (o_flavor o)) /\ uact_flavor (UDel s n t (o_flavor o)) = o_flavor o)
+    by (intro s; split; [exact Logic.I|reflexivity]).
+  destruct vo as [v|].
+  - destruct (find_exact _ _ n v (o_flavor o)) as [[s' r]|]; [|discriminate].
+    destruct (opt_str_eqb _ v); [|discriminate]. destruct (o_noaction o); [discriminate|]. inversion H. apply G.
+  - destruct (o_stack o) as [s|].
+    + destruct (o_noaction o); [discriminate|]. inversion H. apply G.
+    + destruct (first_utagged w u _ n t (o_flavor o)) as [[s' v']|].
+      * destruct (o_noaction o); [discriminate|]. inversion H. apply G.
+      * destruct (find_tagged _ _ n current (o_flavor o)); discriminate.
+Qed.
+
+Lemma run_uop_ok tick u fl w m o plan crash w' m' oc :
+  clock_strict tick -> u <> upsdb -> INV w -> mem_ok w (Some u) fl m ->
+  (forall x, plan = Ok (Some x) -> uact_ok (w_db w) x /\ uact_flavor x = o_flavor o) ->
+  run_uop tick repaired u u fl w m o plan crash = (w', m', oc) ->
+  INV w' /\ (oc <> OCrashed -> mem_ok w' (Some u) fl m') /\ wpath w' = wpath w.
+Proof.
+  intros CS Hu I M HP E. unfold run_uop in E.
+  destruct (str_eqb_spec (o_flavor o) fl) as [Efl|N]; cbn [negb] in E.
+  2:{ inversion E. subst. auto. }
+  destruct plan as [[x|]|e].
+  - destruct (HP x eq_refl) as [H1 H2]. eapply run_uact_ok; try eassumption. congruence.
+  - inversion E. subst. auto.
+  - inversion E. subst. auto.
+Qed.
+
+Lemma delete_cache_mem_ok w uo fl m l s f : mem_ok w uo fl m -> mem_ok (delete_cache w l s f) uo fl m.
+Proof.
+  intros M s' ps H. destruct (M s' ps H) as [[A [U B]] [C D]]. split; [split; [|split]|split]; auto.
   intros l' f' mm p H1 H2. unfold pk_get, delete_cache in H2. cbn [w_pickles] in H2.
   rewrite (glookup_gremove pkey_eqb pkey_eqb_eq) in H2.
   destruct (pkey_eqb (l', s', f') (l, s, f)); [discriminate|]. exact (B l' f' mm p H1 H2).
 Qed.
 
-Lemma run_pops_ok tick loc fl xs : forall w m crash w' m' ocs,
-  clock_strict tick -> INV w -> mem_ok w fl m ->
-  run_pops tick repaired loc fl w m xs crash = (w', m', ocs) ->
+Lemma run_pops_ok tick u fl xs : forall w m crash w' m' ocs,
+  clock_strict tick -> u <> upsdb -> INV w -> mem_ok w (Some u) fl m ->
+  run_pops tick repaired u u fl w m xs crash = (w', m', ocs) ->
   INV w' /\ wpath w' = wpath w.
 Proof.
-  induction xs as [|x rest IH]; intros w m crash w' m' ocs CS I M E; cbn [run_pops] in E.
+  induction xs as [|x rest IH]; intros w m crash w' m' ocs CS Hu I M E; cbn [run_pops] in E.
   - inversion E. subst. auto.
-  - destruct (run_pop tick repaired loc fl w m x
+  - destruct (run_pop tick repaired u u fl w m x
                 (match crash with Some (0, g, b) => Some (g, b) | _ => None end)) as [[w1 m1] oc] eqn:Ep.
-    assert (S1 : INV w1 /\ (oc <> OCrashed -> mem_ok w1 fl m1) /\ wpath w1 = wpath w).
-    { destruct x as [o|l s f]; cbn [run_pop] in Ep.
+    assert (S1 : INV w1 /\ (oc <> OCrashed -> mem_ok w1 (Some u) fl m1) /\ wpath w1 = wpath w).
+    { destruct x as [o|l s f|o t n v|o t n vo]; cbn [run_pop] in Ep.
       - eapply run_op_ok; eassumption.
       - inversion Ep. subst. split; [apply delete_cache_inv; exact I|]. split; [|reflexivity].
-        intros _. apply delete_cache_mem_ok. exact M. }
+        intros _. apply delete_cache_mem_ok. exact M.
+      - eapply run_uop_ok; try eassumption. intros x Hx. eapply uassign_plan_ok. exact Hx.
+      - eapply run_uop_ok; try eassumption. intros x Hx. eapply uunassign_plan_ok. exact Hx. }
     destruct S1 as [I1 [M1 P1]].
     destruct oc; try (
-      destruct (run_pops tick repaired loc fl w1 m1 rest
+      destruct (run_pops tick repaired u u fl w1 m1 rest
                   (match crash with Some (S i, g, b) => Some (i, g, b) | _ => None end)) as [[w2 m2] ocs2] eqn:Er;
       inversion E; subst;
-      destruct (IH w1 m1 _ w' m' ocs2 CS I1 (M1 ltac:(discriminate)) Er) as [A B];
+      destruct (IH w1 m1 _ w' m' ocs2 CS Hu I1 (M1 ltac:(discriminate)) Er) as [A B];
       split; [exact A|congruence]).
     inversion E. subst. auto.
 Qed.
 
 (* ---------------------------------------------------------------- a whole process, reachable worlds *)
 
-Lemma load_ok tick w loc fl w1 m :
-  clock_strict tick -> INV w -> NoDup (wpath w) -> load tick repaired w loc fl = (w1, m) ->
-  INV w1 /\ w_db w1 = w_db w /\ map fst m = wpath w /\
-  (forall s ps, alookup s m = Some ps ->
-     ps_ok w1 s ps /\ (forall f, In f (fallbacks fl) -> alookup f (ps_lookup ps) <> None)).
+(* the tag directory handed to fromCache belongs to the owner of the cache directory *)
+Lemma tag_dir_owner loc u : u <> upsdb -> loc = u \/ loc = upsdb -> tag_dir false loc u = owner loc.
 Proof.
-  intros CS I ND E. unfold load in E. cbn [v_init repaired needed] in E.
-  destruct (load_stacks_ok tick loc (fallbacks fl) (wpath w) w w1 m CS I ND E) as [A [B [C [_ D]]]]. auto.
+  intros Hu [->| ->]; unfold tag_dir, owner.
+  - destruct (str_eqb_spec u upsdb); [contradiction|reflexivity].
+  - rewrite str_eqb_refl. reflexivity.
 Qed.
 
+Lemma load_ok tick w loc u fl w1 m :
+  clock_strict tick -> INV w -> NoDup (wpath w) -> u <> upsdb -> loc = u \/ loc = upsdb ->
+  load tick repaired w loc u fl = (w1, m) ->
+  INV w1 /\ w_db w1 = w_db w /\ w_uc w1 = w_uc w /\ map fst m = wpath w /\
+  (forall s ps, alookup s m = Some ps ->
+     ps_ok w1 (owner loc) s ps /\ (forall f, In f (fallbacks fl) -> alookup f (ps_lookup ps) <> None)).
+Proof.
+  intros CS I ND Hu Hl E. unfold load in E. cbn [v_init v_ustale v_shared repaired needed] in E.
+  rewrite (tag_dir_owner loc u Hu Hl) in E.
+  destruct (load_stacks_ok tick loc (owner loc) (fallbacks fl) (wpath w) w w1 m CS I eq_refl ND E)
+    as [A [B [U [C [_ D]]]]]. auto.
+Qed.
+
+Lemma p_loc_cases p : p_loc p = p_user p \/ p_loc p = upsdb.
+Proof. unfold p_loc. destruct (p_admin p); auto. Qed.
+
 Lemma run_proc_ok tick w p : clock_strict tick -> INV w -> NoDup (wpath w) ->
+  p_user p <> upsdb -> (p_admin p = true -> p_ops p = []) ->
   INV (run_proc tick repaired w p) /\ wpath (run_proc tick repaired w p) = wpath w.
 Proof.
-  intros CS I ND. unfold run_proc, run_proc_full.
-  destruct (load tick repaired w (p_loc p) (p_flavor p)) as [w1 m] eqn:El.
-  destruct (load_ok tick w _ _ w1 m CS I ND El) as [I1 [D1 [K1 L1]]].
-  destruct (run_pops tick repaired (p_loc p) (p_flavor p) w1 m (p_ops p) (p_crash p)) as [[w2 m2] ocs] eqn:Er.
+  intros CS I ND Hu Ha. unfold run_proc, run_proc_full.
+  destruct (load tick repaired w (p_loc p) (p_user p) (p_flavor p)) as [w1 m] eqn:El.
+  destruct (load_ok tick w _ _ _ w1 m CS I ND Hu (p_loc_cases p) El) as [I1 [D1 [U1 [K1 L1]]]].
+  destruct (run_pops tick repaired (p_loc p) (p_user p) (p_flavor p) w1 m (p_ops p) (p_crash p)) as [[w2 m2] ocs] eqn:Er.
   cbn [fst].
-  assert (M1 : mem_ok w1 (p_flavor p) m).
-  { intros s ps H. destruct (L1 s ps H) as [X Y]. split; [exact X|]. split.
-    - rewrite <- has_stack_path. apply mem_str_In. rewrite D1. fold (wpath w). rewrite <- K1.
-      change (In s (akeys m)). apply alookup_not_None_In. congruence.
-    - apply Y. left. reflexivity. }
-  destruct (run_pops_ok tick _ _ _ w1 m _ w2 m2 ocs CS I1 M1 Er) as [I2 P2].
-  split; [exact I2|]. rewrite P2. unfold wpath. rewrite D1. reflexivity.
+  assert (Pw : wpath w1 = wpath w) by (unfold wpath; rewrite D1; reflexivity).
+  destruct (p_admin p) eqn:Ead.
+  - (* an administrator's instance only loads *)
+    rewrite (Ha eq_refl) in Er. cbn [run_pops] in Er. inversion Er. subst. auto.
+  - assert (El' : p_loc p = p_user p) by (unfold p_loc; rewrite Ead; reflexivity).
+    rewrite El' in *. rewrite (owner_user _ Hu) in L1.
+    assert (M1 : mem_ok w1 (Some (p_user p)) (p_flavor p) m).
+    { intros s ps H. destruct (L1 s ps H) as [X Y]. split; [exact X|]. split.
+      - rewrite <- has_stack_path. apply mem_str_In. rewrite D1. fold (wpath w). rewrite <- K1.
+        change (In s (akeys m)). apply alookup_not_None_In. congruence.
+      - apply Y. left. reflexivity. }
+    destruct (run_pops_ok tick _ _ _ w1 m _ w2 m2 ocs CS Hu I1 M1 Er) as [I2 P2].
+    split; [exact I2|]. congruence.
 Qed.
 
 Lemma init_path path : wpath (init_world path) = path.
@@ -390,9 +620,9 @@ Proof. unfold wpath, init_world, empty_db. cbn [w_db]. rewrite map_map. cbn. app
 
 Lemma reachable_inv tick w : clock_strict tick -> reachable tick repaired w -> INV w /\ NoDup (wpath w).
 Proof.
-  intros CS R. induction R as [path ND|w p R [I ND]|w loc s fl R [I ND]].
+  intros CS R. induction R as [path ND|w p Hu Ha R [I ND]|w loc s fl R [I ND]].
   - split; [apply init_INV|]. rewrite init_path. exact ND.
-  - destruct (run_proc_ok tick w p CS I ND) as [A B]. split; [exact A|]. rewrite B. exact ND.
+  - destruct (run_proc_ok tick w p CS I ND Hu Ha) as [A B]. split; [exact A|]. rewrite B. exact ND.
   - split; [apply delete_cache_inv; exact I|exact ND].
 Qed.
 
@@ -415,30 +645,82 @@ Proof.
   - f_equal. induction path as [|s r IH]; cbn [first_tagged]; [reflexivity|]. rewrite VT, IH. reflexivity.
 Qed.
 
-Lemma coherent_load tick w loc fl q :
-  clock_strict tick -> reachable tick repaired w -> In (q_flavor q) (fallbacks fl) ->
-  q_cache (snd (load tick repaired w loc fl)) q = q_db w q.
+(* what a freshly loaded instance holds for a stack of the path and a consulted flavor *)
+Lemma loaded_facts tick w loc u fl w1 m f :
+  clock_strict tick -> INV w -> NoDup (wpath w) -> u <> upsdb -> loc = u \/ loc = upsdb ->
+  load tick repaired w loc u fl = (w1, m) -> In f (fallbacks fl) ->
+  map fst m = wpath w /\
+  (forall s, In s (wpath w) -> exists ps fd, alookup s m = Some ps /\
+             alookup f (ps_lookup ps) = Some fd /\ agree fd (w_db w) s f /\
+             uagree fd (w_db w) (w_uc w) (owner loc) s f) /\
+  (forall s, ~ In s (wpath w) -> alookup s m = None /\ has_stack (w_db w) s = false).
 Proof.
-  intros CS R Hq. destruct (reachable_inv tick w CS R) as [I ND].
-  destruct (load tick repaired w loc fl) as [w1 m] eqn:El. cbn [snd].
-  destruct (load_ok tick w loc fl w1 m CS I ND El) as [I1 [D1 [K1 L1]]].
-  unfold q_cache, q_db. rewrite K1. fold (wpath w).
-  assert (InP : forall s, In s (wpath w) -> exists ps fd, alookup s m = Some ps /\
-             alookup (q_flavor q) (ps_lookup ps) = Some fd /\ agree fd (w_db w) s (q_flavor q)).
-  { intros s Hs. rewrite <- K1 in Hs. apply In_akeys_alookup in Hs.
-    destruct (alookup s m) as [ps|] eqn:Es; [|congruence]. destruct (L1 s ps Es) as [[A _] Y].
-    specialize (Y _ Hq). destruct (alookup (q_flavor q) (ps_lookup ps)) as [fd|] eqn:Ef; [|congruence].
-    exists ps, fd. split; [reflexivity|]. split; [exact Ef|]. rewrite <- D1. exact (A _ _ Ef). }
-  assert (OutP : forall s, ~ In s (wpath w) -> alookup s m = None /\ has_stack (w_db w) s = false).
-  { intros s Hs. split.
-    - destruct (alookup s m) eqn:Es; [|reflexivity]. exfalso. apply Hs. rewrite <- K1.
+  intros CS I ND Hu Hl El Hq.
+  destruct (load_ok tick w loc u fl w1 m CS I ND Hu Hl El) as [I1 [D1 [U1 [K1 L1]]]].
+  split; [exact K1|]. split.
+  - intros s Hs. rewrite <- K1 in Hs. apply In_akeys_alookup in Hs.
+    destruct (alookup s m) as [ps|] eqn:Es; [|congruence]. destruct (L1 s ps Es) as [[A [U _]] Y].
+    specialize (Y _ Hq). destruct (alookup f (ps_lookup ps)) as [fd|] eqn:Ef; [|congruence].
+    exists ps, fd. split; [reflexivity|]. split; [exact Ef|]. rewrite <- D1, <- U1. split; [exact (A _ _ Ef)|].
+    intro n. apply (ugood_uagree_n fd (w_db w1) (w_uc w1) (owner loc) s f n (A _ _ Ef n)). apply (U _ _ Ef).
+  - intros s Hs. split.
+    + destruct (alookup s m) eqn:Es; [|reflexivity]. exfalso. apply Hs. rewrite <- K1.
       change (In s (akeys m)). apply alookup_not_None_In. congruence.
-    - rewrite <- has_stack_path. apply mem_str_not_In. exact Hs. }
+    + rewrite <- has_stack_path. apply mem_str_not_In. exact Hs.
+Qed.
+
+Lemma coherent_load tick w loc u fl q :
+  clock_strict tick -> reachable tick repaired w -> u <> upsdb -> loc = u \/ loc = upsdb ->
+  In (q_flavor q) (fallbacks fl) ->
+  q_cache (snd (load tick repaired w loc u fl)) q = q_db w q.
+Proof.
+  intros CS R Hu Hl Hq. destruct (reachable_inv tick w CS R) as [I ND].
+  destruct (load tick repaired w loc u fl) as [w1 m] eqn:El. cbn [snd].
+  destruct (loaded_facts tick w loc u fl w1 m (q_flavor q) CS I ND Hu Hl El Hq) as [K1 [InP OutP]].
+  unfold q_cache, q_db. rewrite K1. fold (wpath w).
   apply q_eval_ext.
   - intros s n v. unfold mem_decl. destruct (in_dec str_eq_dec s (wpath w)) as [Hs|Hs].
-    + destruct (InP s Hs) as [ps [fd [E1 [E2 A]]]]. rewrite E1, E2. apply (A n).
+    + destruct (InP s Hs) as [ps [fd [E1 [E2 [A _]]]]]. rewrite E1, E2. apply (A n).
     + destruct (OutP s Hs) as [E1 E2]. rewrite E1. symmetry. apply db_decl_no_stack. exact E2.
   - intros s n t. unfold mem_tag. destruct (in_dec str_eq_dec s (wpath w)) as [Hs|Hs].
-    + destruct (InP s Hs) as [ps [fd [E1 [E2 A]]]]. rewrite E1, E2. apply (A n).
+    + destruct (InP s Hs) as [ps [fd [E1 [E2 [A _]]]]]. rewrite E1, E2. apply (A n).
     + destruct (OutP s Hs) as [E1 E2]. rewrite E1. symmetry. apply db_tag_no_stack. exact E2.
+Qed.
+
+(* the same for the user tags of the asking user (not an administrator: his instance holds none) *)
+Lemma ucoherent_load tick w u fl q :
+  clock_strict tick -> reachable tick repaired w -> u <> upsdb ->
+  In (uq_flavor q) (fallbacks fl) ->
+  uq_cache (snd (load tick repaired w u u fl)) q = uq_db w u q.
+Proof.
+  intros CS R Hu Hq. destruct (reachable_inv tick w CS R) as [I ND].
+  destruct (load tick repaired w u u fl) as [w1 m] eqn:El. cbn [snd].
+  destruct (loaded_facts tick w u u fl w1 m (uq_flavor q) CS I ND Hu (or_introl eq_refl) El Hq) as [K1 [InP OutP]].
+  rewrite (owner_user u Hu) in InP.
+  unfold uq_cache, uq_db. rewrite K1. fold (wpath w).
+  set (f := uq_flavor q) in *.
+  assert (HD : forall s n v, mem_decl m s n v f = db_decl (w_db w) s n v f).
+  { intros s n v. unfold mem_decl. destruct (in_dec str_eq_dec s (wpath w)) as [Hs|Hs].
+    - destruct (InP s Hs) as [ps [fd [E1 [E2 [A _]]]]]. rewrite E1, E2. apply (A n).
+    - destruct (OutP s Hs) as [E1 E2]. rewrite E1. symmetry. apply db_decl_no_stack. exact E2. }
+  assert (HU : forall s n t, mem_utag m s n t f = vis_u (w_db w) (w_uc w) (Some u) s n t f).
+  { intros s n t. unfold mem_utag. destruct (in_dec str_eq_dec s (wpath w)) as [Hs|Hs].
+    - destruct (InP s Hs) as [ps [fd [E1 [E2 [_ U]]]]]. rewrite E1, E2. apply (U n).
+    - destruct (OutP s Hs) as [E1 E2]. rewrite E1. symmetry. apply no_decl_no_vis.
+      intro v. apply db_decl_no_stack. exact E2. }
+  assert (VT : forall s n t, vis_tag (mem_decl m) (mem_utag m) s n t f =
+                             vis_tag (db_decl (w_db w)) (fun s n t f => uc_tag (w_uc w) u s n t f) s n t f).
+  { intros s n t. unfold vis_tag. rewrite HU. unfold vis_u.
+    destruct (uc_tag (w_uc w) u s n t f) as [v|]; [|reflexivity].
+    destruct (db_decl (w_db w) s n v f) eqn:Ed; cbn [is_some]; [|reflexivity]. rewrite HD, Ed. reflexivity. }
+  destruct q as [s n v t f0|s n t f0|n t f0]; cbn [uq_flavor] in f; subst f; cbn [uq_eval].
+  - rewrite HD, HU. unfold vis_u. f_equal.
+    destruct (db_decl (w_db w) s n v f0) eqn:Ed; cbn [is_some andb]; [|reflexivity].
+    destruct (uc_tag (w_uc w) u s n t f0) as [v'|]; cbn [opt_str_eqb]; [|reflexivity].
+    destruct (str_eqb_spec v' v) as [->|N].
+    + rewrite Ed. cbn [is_some opt_str_eqb]. apply str_eqb_refl.
+    + destruct (is_some (db_decl (w_db w) s n v' f0)); cbn [opt_str_eqb]; [|reflexivity].
+      destruct (str_eqb_spec v' v); [contradiction|reflexivity].
+  - rewrite VT. reflexivity.
+  - f_equal. clear ND K1 InP OutP. induction (wpath w) as [|s r IH]; cbn [first_tagged]; [reflexivity|]. rewrite VT, IH. reflexivity.
 Qed.
